@@ -101,6 +101,10 @@ class Run:
             if r.stuck or (r.rc != 0 and not r.viol and not r.rejected):
                 raise ToolError("trace %s not consumed by %s (harness/spec mismatch, not a verdict):\n%s\n%s" % (
                     f, tracemod, r.stuck or "", "\n".join(r.errors[:8]) or r.out[-2500:]))
+            if r.unparsed:
+                raise ToolError("could not parse every VIOL record of %s" % f)
+            if r.rejected and not r.viol:
+                raise ToolError("trace %s rejected by %s without a parsed violation:\n%s" % (f, tracemod, r.out[-1500:]))
             if not r.stats:
                 raise ToolError("trace validation of %s produced no STATS line:\n%s" % (f, r.out[-2500:]))
             for k, v in r.stats.items():
@@ -252,7 +256,9 @@ def plan_C02(run):
 def plan_C03(run):
     r = run.model("clientgroups", "MCClientGroups", "MCClientGroups_%s.cfg" % ("t" if run.thorough else "q"), workers=2,
                   exhaustive_note="all a in 0..N-1 x all B in 1..N-1 for every listed prime N and generator")
-    scen = run.scen_file("clientgroups", r.replay)
+    rb = run.model("clientbig", "MCClientBig", "MCClientBig_%s.cfg" % ("t" if run.thorough else "q"), workers=2,
+                   exhaustive_note="built-in prime x announced generators; primes of every byte length 2..32 x generators (sampled keys)")
+    scen = run.scen_file("clientgroups", rb.replay + r.replay)
     tr = run.harness("clientgroups", scen=scen)
     run.validate(tr, "TraceAuth")
     tr = run.harness("interleave")
@@ -262,8 +268,18 @@ def plan_C03(run):
 
 
 def plan_C04(run):
+    run.model("pubkey-scaled", "MCPubKey", "MCPubKey_scaled.cfg", workers=7,
+              exhaustive_note="all 65 536 two-byte arrays for each listed two-byte prime: refused = {0, N} iff 2N >= 2^16")
+    r = run.model("pubkey-own", "MCPubKey", "MCPubKey_own.cfg", workers=1)
+    scen = run.scen_file("ownkey", r.replay)
     tr = run.harness("pubkey")
     run.validate(tr, "TraceAuth")
+    tr = run.harness("ownkey", scen=scen)
+    run.validate(tr, "TraceAuth")
+    tr = run.harness("pubkeysweep")
+    run.validate(tr, "TraceAuth")
+    run.exhaustive["pubkeysweep"] = ("all 2^32 arrays whose bytes are each 0 or N's byte, natively" if run.thorough
+                                     else "2^24 of the 2^32 zero-or-N-byte arrays (all 2^32 in thorough)")
 
 
 def plan_C05(run):
@@ -275,7 +291,13 @@ def plan_C05(run):
 
 
 def plan_C14(run):
-    tr = run.harness("adversary")
+    for n in ([23] if not run.thorough else [23, 47, 59]):
+        open(os.path.join(V, "spec", "mc", "MCAdversary_small.cfg")).close()
+    run.model("adversary-small", "MCAdversary", "MCAdversary_small.cfg", workers=8, coverage=True,
+              exhaustive_note="N=23: every hostile A x {zero, 0xFF} proofs for every b; every hostile B in 1..2N-1 x every a; hostile M2")
+    r = run.model("adversary-cases", "MCAdversary", "MCAdversary_cases.cfg", workers=1)
+    scen = run.scen_file("adversary", r.replay)
+    tr = run.harness("adversary", scen=scen)
     run.validate(tr, "TraceAuth")
 
 
